@@ -19,7 +19,12 @@ func kn(s string) string { return core.KeyOfName(s) }
 func init() {
 	register(&Rule{ID: "LK-ORDER", Floor: 20,
 		Doc: "lock-order graph over mutexes, repository tokens, wait-group waits and the handler-activity resource (edge A→B whenever B is blockingly acquired or waited for while A is held, through every call chain including cache callbacks): every strongly connected component of more than one class is a possible circular wait",
-		Run: runLockOrder})
+		Run: func(c *core.Ctx) { runLockOrder(c, nil) }})
+	register(&Rule{ID: "LK-SHUTDOWN", Floor: 10,
+		Doc: "the part of the lock-order graph that involves the server's own mutexes and the handler-activity resource (what Run, Shutdown, Close and the rate limiter take or wait for) has no cycle: shutdown cannot wait for handlers that need a lock it holds",
+		Run: func(c *core.Ctx) {
+			runLockOrder(c, func(name string) bool { return name == "activity" || strings.HasPrefix(name, "olareg.Server.") })
+		}})
 	register(&Rule{ID: "LK-SELF", Floor: 8,
 		Doc: "no mutex class is acquired while the same class is already held (sync.Mutex is not re-entrant), with the `locked` flags specialised per call site and interface calls resolved within the store family",
 		Run: func(c *core.Ctx) {
@@ -118,7 +123,48 @@ func init() {
 		Run: runLockToken})
 	register(&Rule{ID: "LK-GUARD", Floor: 25,
 		Doc: "static lockset: for every field of the structs of the server, store and cache packages that is written after its object is published, all post-publication accesses (reads, writes, map/slice element accesses, addresses handed to callees) hold one common mutex, in every calling context",
-		Run: runLockGuard})
+		Run: func(c *core.Ctx) { runLockGuard(c, "") }})
+	for _, v := range []struct{ id, prefix, what string }{
+		{"LK-GUARD-SERVER", "olareg.", "the server type and the rate-limit entry"},
+		{"LK-GUARD-CACHE", "cache.", "the bounded cache (entries map, per-entry time, timer, sort keys)"},
+		{"LK-GUARD-STORE", "store.", "the store, repository and upload types of both stores"},
+	} {
+		v := v
+		register(&Rule{ID: v.id, Floor: 5,
+			Doc: "static lockset restricted to the fields of " + v.what + ": all post-publication accesses of a field that is written after publication hold one common mutex, in every calling context",
+			Run: func(c *core.Ctx) { runLockGuard(c, v.prefix) }})
+	}
+	register(&Rule{ID: "LK-PAIR-CACHE", Floor: 5,
+		Doc: "the cache's mutex is released on every exit of every entry point that takes it, and no cache function's exits disagree on the mutexes they leave held",
+		Run: func(c *core.Ctx) {
+			e := getLock(c)
+			n := 0
+			var keys []string
+			for k := range e.Leaks {
+				keys = append(keys, k)
+			}
+			sort.Strings(keys)
+			bad := map[string]bool{}
+			for _, k := range keys {
+				l := e.Leaks[k]
+				if !strings.HasPrefix(e.Classes[l.Class].Name, "cache.") {
+					continue
+				}
+				bad[e.Classes[l.Class].Name] = true
+				c.Fail(fmt.Sprintf("leak:%s|%s|%v", kn(l.Root), e.Classes[l.Class].Name, l.Release), l.Pos, "%s leaked or released without being held through entry point %s", e.Classes[l.Class].Name, l.Root)
+			}
+			for f, d := range e.ExitDiff {
+				if strings.Contains(f, "cache.") {
+					c.Fail("exits:"+kn(f), token.NoPos, "the exits of %s leave different mutexes held: %s", f, d)
+				}
+			}
+			for _, cl := range e.Classes {
+				if cl.Kind == lock.Mutex && strings.HasPrefix(cl.Name, "cache.") && !bad[cl.Name] {
+					n++
+					c.Pass("class:"+cl.Name, token.NoPos, "released on every exit of every entry point")
+				}
+			}
+		}})
 	register(&Rule{ID: "LK-ATOMIC", Floor: 4,
 		Doc: "in each store family's IndexInsert and IndexRemove the in-memory index is mutated, and (directory store) persisted, while the repository mutex is held, with no release of that mutex in between",
 		Run: runLockAtomic})
@@ -136,7 +182,9 @@ func init() {
 		Run: runLockFlag})
 }
 
-func runLockOrder(c *core.Ctx) {
+// runLockOrder reports cycles; with a filter, only cycles containing a class the filter selects, and only
+// edges touching such a class are listed as discharged.
+func runLockOrder(c *core.Ctx, filter func(string) bool) {
 	e := getLock(c)
 	n := len(e.Classes)
 	adj := make([][]int, n)
@@ -206,6 +254,22 @@ func runLockOrder(c *core.Ctx) {
 	})
 	for _, k := range keys {
 		a, b := e.Classes[k[0]].Name, e.Classes[k[1]].Name
+		if filter != nil {
+			inCycle := comp[k[0]] == comp[k[1]] && size[comp[k[0]]] > 1
+			sel := false
+			if inCycle {
+				for _, mname := range members[comp[k[0]]] {
+					if filter(mname) {
+						sel = true
+					}
+				}
+			} else {
+				sel = filter(a) || filter(b)
+			}
+			if !sel {
+				continue
+			}
+		}
 		if comp[k[0]] == comp[k[1]] && size[comp[k[0]]] > 1 {
 			m := members[comp[k[0]]]
 			sort.Strings(m)
@@ -326,12 +390,15 @@ var guardExceptions = map[string]string{
 	"olareg.Server.store": "lifecycle field: written only by Close and Shutdown (after the HTTP shutdown has waited for the handlers); the documented contract of Close/Shutdown forbids using the server concurrently with or after them",
 }
 
-func runLockGuard(c *core.Ctx) {
+func runLockGuard(c *core.Ctx, prefix string) {
 	e := getLock(c)
 	reps := e.Lockset()
 	sort.Slice(reps, func(i, j int) bool { return reps[i].Field < reps[j].Field })
 	immut := 0
 	for _, fr := range reps {
+		if prefix != "" && !strings.HasPrefix(fr.Field, prefix) {
+			continue
+		}
 		if fr.PostWrites == 0 {
 			immut++
 			c.Pass("field:"+fr.Field, token.NoPos, "never written after publication (%d reads, %d constructor writes)", fr.Reads, fr.Writes)
